@@ -21,12 +21,15 @@ pub struct VCap {
     pub offset: u32,
     pub length: u32,
     pub mult: u32,
+    /// The `id` byte and the two padding bytes that follow `bar` (low 24 bits): they have no
+    /// bearing on which capability the driver must use.
+    pub idpad: u32,
 }
 
 impl VCap {
     pub fn spec(&self) -> CapSpec {
         // body starts at byte 2 of the capability: cap_len, cfg_type, bar, padding[3], offset, length, (mult)
-        let mut b = vec![self.cap_len, self.cfg_type, self.bar, 0, 0, 0];
+        let mut b = vec![self.cap_len, self.cfg_type, self.bar, self.idpad as u8, (self.idpad >> 8) as u8, (self.idpad >> 16) as u8];
         b.extend(self.offset.to_le_bytes());
         b.extend(self.length.to_le_bytes());
         if self.cap_len >= 20 || self.cfg_type == 2 {
@@ -46,16 +49,16 @@ pub const GOOD_BAR_ADDR: u64 = 0x8_0000_0000;
 pub const GOOD_BAR_SIZE: u64 = 0x4000;
 
 pub fn good_common() -> VCap {
-    VCap { cap_id: 9, cap_len: 16, cfg_type: 1, bar: GOOD_BAR, offset: 0, length: 0x38, mult: 0 }
+    VCap { cap_id: 9, cap_len: 16, cfg_type: 1, bar: GOOD_BAR, offset: 0, length: 0x38, mult: 0, idpad: 0 }
 }
 pub fn good_notify() -> VCap {
-    VCap { cap_id: 9, cap_len: 20, cfg_type: 2, bar: GOOD_BAR, offset: 0x3000, length: 0x1000, mult: 4 }
+    VCap { cap_id: 9, cap_len: 20, cfg_type: 2, bar: GOOD_BAR, offset: 0x3000, length: 0x1000, mult: 4, idpad: 0 }
 }
 pub fn good_isr() -> VCap {
-    VCap { cap_id: 9, cap_len: 16, cfg_type: 3, bar: GOOD_BAR, offset: 0x1000, length: 0x1000, mult: 0 }
+    VCap { cap_id: 9, cap_len: 16, cfg_type: 3, bar: GOOD_BAR, offset: 0x1000, length: 0x1000, mult: 0, idpad: 0 }
 }
 pub fn good_device() -> VCap {
-    VCap { cap_id: 9, cap_len: 16, cfg_type: 4, bar: GOOD_BAR, offset: 0x2000, length: 0x1000, mult: 0 }
+    VCap { cap_id: 9, cap_len: 16, cfg_type: 4, bar: GOOD_BAR, offset: 0x2000, length: 0x1000, mult: 0, idpad: 0 }
 }
 
 #[derive(Clone, Debug, PartialEq, Eq)]
